@@ -5,18 +5,40 @@ order checker, brute-force overlap matrix from dense label images compared as
 a multiset of (label1, label2, count) triples with the linear and the matrix
 algorithm.
 """
+import os
 import numpy as np
 from .. import imgs
 from ..common import rng
 
 TECHNIQUE = ("runtime reference-model monitor: dense<->sparse identity against numpy selection, sortedness checker, brute-force "
-             "overlap matrix vs sparseframe.overlaps_linear / overlaps_matrix / overlaps and cImageD11.sparse_overlaps / "
-             "compress_duplicates / coverlaps")
+             "overlap matrix vs sparseframe.overlaps_linear / overlaps_matrix (one object reused over calls of different shape) / "
+             "overlaps and cImageD11.sparse_overlaps / compress_duplicates / coverlaps (called on a buffer with guard zones), "
+             "and vs the overlaps stored by properties.pairrow / pairscans")
 LEVEL_TEXT = ("Exploration: shapes up to 3x65534 and 65534x3, uint16/uint32/float32 data, masks from a single pixel to the full "
-              "image, cuts at min/max, pixels in the last row and column; unsorted frames produced by random permutation and re-sorted; "
+              "image given as int8 / bool / uint8 (values up to 255), cuts at min / max-1 / median / 90th percentile / 0 combined at random "
+              "with no / full / 80% / 30% detector masks, pixels in the last row and column; sparse_frame.mask / threshold / "
+              "to_dense(default, out=); unsorted frames produced by random permutation and re-sorted, duplicates at any position; "
               "label frames disjoint / identical / partially overlapping with 1..N labels (label ids at the histogram edge, frames ending on "
-              "the same pixel).")
-LEVEL_NOTE = "Trusts numpy; empty frames are excluded as the property states (the library represents them as None)."
+              "the same pixel), with and without unlabelled (0) pixels; scans with increasing / decreasing / shuffled omega.")
+LEVEL_NOTE = ("Trusts numpy; empty frames are excluded as the property states (the library represents them as None). Frames holding "
+              "unlabelled (label 0) pixels are decided only for the pairs of labels >= 1 (pairs naming 0 are counted, not judged); "
+              "sparseframe.overlaps documents that it assumes no 0 label and is not given such frames. Labels above the frame's own "
+              "label count (cplabel(countall=True)) are outside the statement and not passed. Sub-checks that currently fail on the "
+              "repaired tree and wait for a decision run only when VERIF_PENDING_C14_* is set (see PENDING below).")
+
+# sub-checks guarded by hard rule 2 (real behaviour differs from the statement; coordinator decides)
+PENDING = {
+    "VERIF_PENDING_C14_LABEL0": "coverlaps / overlaps_matrix on frames holding label-0 pixels: writes before mat and miscounts (a-1, n2)",
+    "VERIF_PENDING_C14_OVERLAPS_DISJOINT": "sparseframe.overlaps raises ValueError for two frames without a common pixel",
+    "VERIF_PENDING_C14_NEGMASK": "from_data_mask with negative int8 mask entries returns uninitialised coordinates (return code 4 ignored)",
+    "VERIF_PENDING_C14_NEGCUT": "from_data_cut(uint16 image, cut < 0) selects nothing ((uint16_t)cut wraps)",
+    "VERIF_PENDING_C14_TODENSE_ARRAY": "sparse_frame.to_dense(<array>) (documented) raises TypeError",
+}
+
+
+def pending(name):
+    assert name in PENDING
+    return bool(os.environ.get(name))
 
 RULE = ("a case = (shape, dtype, mask class) for the round trip or (shape, label classes) for overlaps; non-trivial = mask neither "
         "empty nor full / at least one overlapping label pair; distinct = (shape, dtype, mask class, hash of mask)")
@@ -69,8 +91,21 @@ def roundtrip_case(run, seed, idx, mods):
     def V(key, what):
         run.violation(key, what, desc)
 
-    # ---- from_data_mask
-    fr = sparseframe.from_data_mask(mask.astype(np.int8), data, {"threshold": 0})
+    # second stream for the dimensions added later (keeps the older part of the case unchanged)
+    r2 = rng(seed, "C14", "rt2", idx)
+    # ---- from_data_mask: the mask in one of the representations callers use
+    mrep = ["int8", "bool", "uint8", "int8-big"][int(r2.integers(4))]
+    if mrep == "int8":
+        marg = mask.astype(np.int8)
+    elif mrep == "bool":
+        marg = mask.copy()
+    elif mrep == "uint8":
+        marg = np.where(mask, r2.choice(np.array([1, 2, 127, 128, 255], np.uint8), shape), 0).astype(np.uint8)
+    else:
+        marg = np.where(mask, r2.integers(1, 128, shape), 0).astype(np.int8)
+    desc["maskrep"] = mrep
+    run.count("maskrep_" + mrep)
+    fr = sparseframe.from_data_mask(marg, data, {"threshold": 0})
     run.count("roundtrips")
     if fr.nnz != int(mask.sum()):
         V("from_data_mask:nnz", "nnz %d != selected pixels %d" % (fr.nnz, int(mask.sum())))
@@ -82,27 +117,116 @@ def roundtrip_case(run, seed, idx, mods):
     want = np.where(mask, data, 0).astype(data.dtype)
     if dense.shape != shape or not np.array_equal(dense, want):
         V("from_data_mask:roundtrip", "to_dense(from_data_mask(img)) != img*mask")
-    # ---- from_data_cut / tosparse kernels
-    cut = [float(np.median(data)), float(data.min()), float(data.max()) - 1, 0.0][idx % 4]
+    # ---- sparse_frame.to_dense defaults / out= ; mask() ; threshold()
+    d0 = fr.to_dense()                       # one pixel array: that one is the default
+    if not np.array_equal(d0, want) or d0.dtype != data.dtype:
+        V("to_dense:default", "to_dense() of a frame with one pixel array is not that array laid out densely")
+    outbuf = np.full(shape, 77, data.dtype)  # stale contents must not survive
+    o2 = fr.to_dense("intensity", out=outbuf)
+    if o2 is not outbuf or not np.array_equal(outbuf, want):
+        V("to_dense:out", "to_dense(out=buffer) does not fill the buffer with the selected pixels (stale values kept or other array returned)")
+    run.count("to_dense_variants", 2)
+    if pending("VERIF_PENDING_C14_TODENSE_ARRAY"):
+        try:
+            d3 = fr.to_dense(fr.pixels["intensity"])
+        except Exception as e:
+            V("to_dense:array-argument", "to_dense(<1D array>) (documented) raised %s: %s" % (type(e).__name__, e))
+        else:
+            if not np.array_equal(d3, want):
+                V("to_dense:array-argument", "to_dense(<1D array>) differs from the selected pixels")
+    sub = r2.random(fr.nnz) < float(r2.choice([0.1, 0.5, 0.9]))
+    sub[int(r2.integers(fr.nnz))] = True
+    try:
+        fm = fr.mask(sub)
+        tcut = fr.pixels["intensity"][int(r2.integers(fr.nnz))]
+        ft = fr.threshold(tcut) if (fr.pixels["intensity"] > tcut).any() else None
+    except Exception as e:
+        V("mask-threshold:exception:%s" % type(e).__name__, "sparse_frame.mask()/threshold() raised %s: %s" % (type(e).__name__, e))
+    else:
+        run.count("mask_method_calls")
+        submask = np.zeros(shape, bool)
+        submask[fr.row[sub], fr.col[sub]] = True
+        if fm.nnz != int(sub.sum()) or not sorted_strict(fm.row, fm.col) or \
+                not np.array_equal(fm.to_dense("intensity"), np.where(submask, data, 0).astype(data.dtype)):
+            V("mask:subset", "sparse_frame.mask(selection) is not the selected subset of the frame")
+        if fm.row.base is fr.row or np.shares_memory(fm.row, fr.row):
+            V("mask:aliases-parent", "sparse_frame.mask() returned coordinates that share memory with the parent frame")
+        if ft is not None:
+            run.count("threshold_method_calls")
+            tsel = mask & (data > tcut)
+            if ft.nnz != int(tsel.sum()) or not sorted_strict(ft.row, ft.col) or \
+                    not np.array_equal(ft.to_dense("intensity"), np.where(tsel, data, 0).astype(data.dtype)):
+                V("threshold:subset", "sparse_frame.threshold(t) is not the pixels of the frame above t")
+    # ---- masks with negative entries: mask>0 (python side) and mask!=0 (C side) disagree; any of: an exception, the
+    # mask>0 selection, the mask!=0 selection is accepted - coordinates that match neither are not
+    if pending("VERIF_PENDING_C14_NEGMASK") and n >= 2:
+        mneg = mask.astype(np.int8)
+        flip = r2.random(shape) < 0.3
+        flip.flat[int(r2.integers(n))] = True
+        mneg[flip] = (-r2.integers(1, 129, int(flip.sum()))).astype(np.int8)
+        if (mneg > 0).any():
+            try:
+                fn = sparseframe.from_data_mask(mneg, data, {})
+            except Exception:
+                run.count("negmask_refused")
+            else:
+                run.count("negmask_accepted")
+                ok = False
+                for selm in (mneg > 0, mneg != 0):
+                    if fn.nnz == int(selm.sum()) and np.array_equal(fn.row, np.nonzero(selm)[0]) and \
+                            np.array_equal(fn.col, np.nonzero(selm)[1]) and len(fn.pixels["intensity"]) == fn.nnz and \
+                            np.array_equal(fn.pixels["intensity"], data[selm]):
+                        ok = True
+                if not ok:
+                    V("from_data_mask:negative-mask", "mask with negative int8 entries: frame matches neither mask>0 nor mask!=0 "
+                      "(mask_to_coo return code ignored, coordinates uninitialised)")
+    # ---- from_data_cut / tosparse kernels: cut class and detector mask are drawn independently
+    ck = ["median", "min", "max-1", "zero", "q90"][int(r2.integers(5))]
+    flat = data.ravel()
+    cut = {"median": float(np.median(data)), "min": float(data.min()), "max-1": float(data.max()) - 1, "zero": 0.0,
+           "q90": float(np.sort(flat[:: max(1, n // 5000)])[-max(1, min(n, 5000) // 10)])}[ck]
     if dt == np.uint32:
         # the kernel takes the cut as a C float: use a value that float32 represents exactly
         cut = float(np.float32(max(0.0, min(cut, 2.0 ** 31))))
-    detmask = (r.random(shape) < 0.8) if idx % 2 else np.ones(shape, bool)
+    dk = ["none", "ones", "p80", "p30"][int(r2.integers(4))]
+    if dt == np.uint32 and dk == "none":
+        dk = "ones"                           # the u32 kernel is called directly and always takes a mask
+    detmask = (r2.random(shape) < (0.8 if dk == "p80" else 0.3)) if dk in ("p80", "p30") else np.ones(shape, bool)
+    detarg = np.where(detmask, r2.choice(np.array([1, 255], np.uint8), shape), 0).astype(np.uint8)
+    desc.update(cut=ck, detmask=dk)
     if dt in (np.uint16, np.float32):
-        cutv = int(cut) if dt == np.uint16 else np.float32(cut)
+        cutv = max(int(cut), 0) if dt == np.uint16 else np.float32(cut)
         sel = (data > (np.uint16(cutv) if dt == np.uint16 else cutv)) & detmask
         if sel.any():
-            fc = sparseframe.from_data_cut(data, cutv, detectormask=detmask.astype(np.uint8))
+            if dk == "none":
+                fc = sparseframe.from_data_cut(data, cutv)       # default header, detectormask=None
+            else:
+                fc = sparseframe.from_data_cut(data, cutv, detectormask=detarg)
             run.count("cut_roundtrips")
+            run.count("cut_detmask_" + dk)
+            if dk in ("p80", "p30") and ck in ("median", "q90", "max-1") and 0 < int(sel.sum()) < int(detmask.sum()):
+                run.count("cut_selective_under_partial_detmask")
             if not sorted_strict(fc.row, fc.col) or fc.nnz != int(sel.sum()):
                 V("from_data_cut:order-or-count", "from_data_cut: nnz %d vs %d selected or unsorted" % (fc.nnz, int(sel.sum())))
             elif not np.array_equal(fc.to_dense("intensity"), np.where(sel, data, 0).astype(data.dtype)):
                 V("from_data_cut:roundtrip", "to_dense(from_data_cut(img, cut)) != selected pixels")
+        if dt == np.uint16 and detmask.any() and pending("VERIF_PENDING_C14_NEGCUT"):
+            # every uint16 pixel is above a negative cut
+            negcut = -int(r2.integers(1, 70000))
+            try:
+                fneg = sparseframe.from_data_cut(data, negcut, detectormask=detarg)
+                okneg = fneg.nnz == int(detmask.sum()) and np.array_equal(fneg.to_dense("intensity"), np.where(detmask, data, 0))
+            except Exception as e:
+                V("from_data_cut:negative-cut", "from_data_cut(uint16 image, cut=%d) raised %s: %s (all unmasked pixels are above the cut)"
+                  % (negcut, type(e).__name__, e))
+            else:
+                if not okneg:
+                    V("from_data_cut:negative-cut", "from_data_cut(uint16 image, cut=%d) does not select all unmasked pixels" % negcut)
     else:
         row = np.zeros(n, np.uint16)
         col = np.zeros(n, np.uint16)
         val = np.zeros(n, np.uint32)
-        k = cImageD11.tosparse_u32(data, detmask.astype(np.uint8), row, col, val, float(cut))
+        k = cImageD11.tosparse_u32(data, detarg, row, col, val, float(cut))
         sel = (data > np.uint32(cut)) & detmask
         run.count("cut_roundtrips")
         out = np.zeros(shape, np.uint32)
@@ -143,6 +267,36 @@ def roundtrip_case(run, seed, idx, mods):
         sd = cImageD11.sparse_is_sorted(fd_row, fd_col)
         if sd != -1:
             V("sparse_is_sorted:duplicate", "duplicate first pixel reported as %d, expected -1" % sd)
+        # a duplicate anywhere in an otherwise sorted frame: documented answer is -(index of the first duplicate)
+        pd = int(r2.integers(1, fr.nnz + 1))
+        fd_row = np.insert(fr.row, pd, fr.row[pd - 1])
+        fd_col = np.insert(fr.col, pd, fr.col[pd - 1])
+        sd = cImageD11.sparse_is_sorted(fd_row, fd_col)
+        run.count("duplicate_position_checks")
+        if sd != -pd:
+            V("sparse_is_sorted:duplicate-position", "duplicate at index %d of %d reported as %d, expected %d" % (pd, fr.nnz + 1, sd, -pd))
+        # a duplicate and an inversion together: the documentation gives k for the first unsorted element and -k for the
+        # first duplicate, and does not say which wins: accept either, but the index must be the right one
+        if fr.nnz >= 3:
+            q = int(r2.integers(1, len(fd_row)))
+            mr, mc = fd_row.copy(), fd_col.copy()
+            mr[[q - 1, q]] = mr[[q, q - 1]]
+            mc[[q - 1, q]] = mc[[q, q - 1]]
+            key = mr.astype(np.int64) * 70000 + mc
+            dk_ = np.diff(key)
+            uns = np.nonzero(dk_ < 0)[0]
+            dup = np.nonzero(dk_ == 0)[0]
+            sm = cImageD11.sparse_is_sorted(mr, mc)
+            okv = set()
+            if len(uns):
+                okv.add(int(uns[0]) + 1)
+            if len(dup):
+                okv.add(-(int(dup[0]) + 1))
+            if not okv:
+                okv.add(0)
+            run.count("mixed_duplicate_inversion_checks")
+            if sm not in okv:
+                V("sparse_is_sorted:mixed", "frame with first inversion/duplicate at %r reported as %d" % (sorted(okv), sm))
         # sort_by keeps values attached too
         fu2 = sparseframe.sparse_frame(fr.row.copy(), fr.col.copy(), shape,
                                        pixels={"intensity": fr.pixels["intensity"].copy(),
@@ -163,6 +317,12 @@ def roundtrip_case(run, seed, idx, mods):
             V("from_data_mask:oversize", "image with 65540 columns accepted with 16 bit indices")
         except AssertionError:
             run.count("oversize_rejected")
+        for big in ((1, 65540), (65537, 2)):
+            try:
+                sparseframe.from_data_cut(np.ones(big, np.float32), 0.5)
+                V("from_data_cut:oversize", "image of shape %r accepted with 16 bit indices" % (big,))
+            except AssertionError:
+                run.count("oversize_rejected")
 
 
 def overlap_case(run, seed, idx, mods):
@@ -206,14 +366,30 @@ def overlap_case(run, seed, idx, mods):
     else:
         l1, n1 = imgs.ref_label(m1, True)
         l2, n2 = imgs.ref_label(m2, True)
+    # unlabelled (background, label 0) pixels stored in the frames, as sparse_connectedpixels(threshold) leaves them
+    r2 = rng(seed, "C14", "ov2", idx)
+    bg = r2.random() < 0.25
+    if bg:
+        for l, m in ((l1, m1), (l2, m2)):
+            z = m & (r2.random(shape) < float(r2.choice([0.05, 0.3, 0.7])))
+            l[z] = 0
+        if r2.random() < 0.3:
+            # first / last stored pixel unlabelled
+            l1[np.nonzero(m1)[0][0], np.nonzero(m1)[1][0]] = 0
+            l2[np.nonzero(m2)[0][-1], np.nonzero(m2)[1][-1]] = 0
     # brute force
     both = (l1 > 0) & (l2 > 0)
     want = {}
     for a, b in zip(l1[both].tolist(), l2[both].tolist()):
         want[(a, b)] = want.get((a, b), 0) + 1
-    desc = dict(index=idx, kind="overlap", shape=shape, cls=cls, n1=int(n1), n2=int(n2))
+    desc = dict(index=idx, kind="overlap", shape=shape, cls=cls, n1=int(n1), n2=int(n2), background=bool(bg))
     if tall:
         run.count("overlap_cases_beyond_32767")
+    has0 = bool(((l1 == 0) & m1).any() or ((l2 == 0) & m2).any())
+    if has0:
+        run.count("overlap_cases_with_label0_pixels")
+    if not want:
+        run.count("overlap_cases_no_shared_label_pair")
     run.case((shape, cls, hash(m1.tobytes()), hash(m2.tobytes())), nontrivial=len(want) >= 1,
              sample=dict(desc, pairs=len(want)))
 
@@ -228,10 +404,16 @@ def overlap_case(run, seed, idx, mods):
     f2.set_pixels("labels", lab2, {"nlabel": int(n2)})
 
     def as_dict(rows, route):
+        """pairs of labels >= 1 -> count; pairs naming the background 0 are counted but not judged (see LEVEL_NOTE)"""
         d = {}
+        seen = set()
         for a, b, c in rows:
-            if (int(a), int(b)) in d:
+            if (int(a), int(b)) in seen:
                 V(route + ":pair-twice", "label pair (%d,%d) listed twice" % (a, b))
+            seen.add((int(a), int(b)))
+            if has0 and (int(a) == 0 or int(b) == 0):
+                run.count("pairs_naming_background_reported")
+                continue
             d[(int(a), int(b))] = int(c)
         return d
 
@@ -251,31 +433,99 @@ def overlap_case(run, seed, idx, mods):
     got2 = as_dict(rcl2[:ne2], "overlaps_linear(realloc)") if ne2 else {}
     if got2 != want:
         V("overlaps_linear:realloc", "linear algorithm with growing buffers differs from brute force")
-    # matrix
-    with contextlib.redirect_stdout(io.StringIO()):
-        om = sparseframe.overlaps_matrix(npkmax=4)
-        nm, res = om(f1.row, f1.col, lab1, n1, f2.row, f2.col, lab2, n2)
-    gotm = as_dict(res[:nm], "overlaps_matrix") if nm else {}
-    if gotm != want:
-        V("overlaps_matrix", "matrix algorithm: %d pairs, brute force %d" % (len(gotm), len(want)))
-    # overlaps() -> scipy coo (labels - 1)
-    if want:
-        co = sparseframe.overlaps(f1, "labels", f2, "labels").tocoo()
-        gots = as_dict(zip(co.row + 1, co.col + 1, co.data), "overlaps")
-        if gots != want:
-            V("overlaps", "sparseframe.overlaps differs from brute force")
+    # matrix kernel on a buffer with guard zones on both sides: nothing outside mat / results may be written
+    if (not has0) or pending("VERIF_PENDING_C14_LABEL0"):
+        G = int(n2) + 8
+        buf = np.full(G + n1 * n2 + G, -777, np.int32)
+        mat = buf[G:G + n1 * n2].reshape(n1, n2)
+        rbuf = np.full(3 * n1 * n2 + 16, -777, np.int32)
+        nk = cImageD11.coverlaps(f1.row, f1.col, lab1, f2.row, f2.col, lab2, mat, rbuf)
+        run.count("coverlaps_guarded_calls")
+        if (buf[:G] != -777).any() or (buf[G + n1 * n2:] != -777).any():
+            V("coverlaps:out-of-bounds", "coverlaps wrote outside its %dx%d matrix (%d guard words changed)"
+              % (n1, n2, int((buf[:G] != -777).sum() + (buf[G + n1 * n2:] != -777).sum())))
+        elif not (0 <= nk <= n1 * n2) or (rbuf[3 * max(nk, 0):] != -777).any():
+            V("coverlaps:results-overrun", "coverlaps returned %d pairs / wrote past 3*npairs in results" % nk)
+        else:
+            gotk = as_dict(rbuf[:3 * nk].reshape(nk, 3), "coverlaps")
+            if gotk != want:
+                V("coverlaps", "matrix kernel: %d pairs, brute force %d; first difference %r"
+                  % (len(gotk), len(want), sorted(set(gotk.items()) ^ set(want.items()))[:2]))
+    # matrix object, reused over calls with different (n1, n2): swapped, self, then the pair itself
+    if not has0:
+        want21 = {(b, a): c for (a, b), c in want.items()}
+        want11 = {(int(a), int(a)): int(c) for a, c in zip(*np.unique(l1[l1 > 0], return_counts=True))}
+        with contextlib.redirect_stdout(io.StringIO()):
+            om = sparseframe.overlaps_matrix(npkmax=4)
+            for tag, (fa, la, na, fb, lb, nb, wnt) in (("swapped", (f2, lab2, n2, f1, lab1, n1, want21)),
+                                                       ("self", (f1, lab1, n1, f1, lab1, n1, want11)),
+                                                       ("", (f1, lab1, n1, f2, lab2, n2, want))):
+                nm, res = om(fa.row, fa.col, la, na, fb.row, fb.col, lb, nb)
+                gotm = as_dict(res[:nm], "overlaps_matrix") if nm else {}
+                run.count("overlaps_matrix_calls")
+                if gotm != wnt:
+                    V("overlaps_matrix" + (":reused-" + tag if tag else ""),
+                      "matrix algorithm (%s call on one object): %d pairs, brute force %d" % (tag or "main", len(gotm), len(wnt)))
+    # overlaps() -> scipy coo (labels - 1); it documents that it assumes no 0 label
+    if not has0 and (want or pending("VERIF_PENDING_C14_OVERLAPS_DISJOINT")):
+        try:
+            cm = sparseframe.overlaps(f1, "labels", f2, "labels")
+        except Exception as e:
+            V("overlaps:exception:%s" % type(e).__name__, "sparseframe.overlaps raised %s: %s (%d label pairs share pixels)"
+              % (type(e).__name__, e, len(want)))
+        else:
+            co = cm.tocoo()
+            gots = as_dict(zip(co.row + 1, co.col + 1, co.data), "overlaps")
+            run.count("overlaps_calls")
+            if gots != want or tuple(cm.shape) != (n1, n2):
+                V("overlaps", "sparseframe.overlaps differs from brute force")
     # low level pixel matching
     k1 = np.zeros(f1.nnz, np.int32)
     k2 = np.zeros(f2.nnz, np.int32)
     npx = cImageD11.sparse_overlaps(f1.row, f1.col, k1, f2.row, f2.col, k2)
-    if npx != int(both.sum()) or not (np.array_equal(f1.row[k1[:npx]], f2.row[k2[:npx]]) and
+    if npx != int((m1 & m2).sum()) or not (np.array_equal(f1.row[k1[:npx]], f2.row[k2[:npx]]) and
                                        np.array_equal(f1.col[k1[:npx]], f2.col[k2[:npx]])):
-        V("sparse_overlaps", "sparse_overlaps found %d shared pixels, dense comparison %d" % (npx, int(both.sum())))
+        V("sparse_overlaps", "sparse_overlaps found %d shared pixels, dense comparison %d" % (npx, int((m1 & m2).sum())))
+
+
+def _dense_labels(sc, shape):
+    out = []
+    for k in range(len(sc.nnz)):
+        s0, e0 = sc.ipt[k], sc.ipt[k + 1]
+        lab = np.zeros(shape, np.int64)
+        lab[sc.row[s0:e0], sc.col[s0:e0]] = sc.labels[s0:e0]
+        out.append(lab)
+    return out
+
+
+def _judge_stored(run, desc, what, ans, da, db, bgframes):
+    """ans = (nedge, rcl) as stored by the consumer for dense label images da, db"""
+    ne, rcl = ans
+    both = (da > 0) & (db > 0)
+    want = {}
+    for a, b in zip(da[both].tolist(), db[both].tolist()):
+        want[(a, b)] = want.get((a, b), 0) + 1
+    rows = [(int(a), int(b), int(c)) for a, b, c in (rcl[:ne] if ne else [])]
+    if len(set(r_[:2] for r_ in rows)) != len(rows):
+        run.violation(what + ":pair-twice", "a label pair is stored twice", desc)
+        return False
+    if bgframes:
+        # unlabelled pixels present (threshold above the weakest stored pixel): pairs naming 0 are not judged
+        nbg = sum(1 for a, b, c in rows if a == 0 or b == 0)
+        run.count("pairrow_pairs_naming_background", nbg)
+        rows = [t for t in rows if t[0] > 0 and t[1] > 0]
+    got = {(a, b): c for a, b, c in rows}
+    if got != want or len(rows) != len(want):
+        run.violation(what + ":stored-overlaps", "overlaps stored by properties.%s differ from the brute-force count "
+                      "(%d pairs stored, %d expected)" % (what, len(got), len(want)), desc)
+        return False
+    return True
 
 
 def pairrow_case(run, seed, idx, sparseframe):
-    """properties.pairrow: overlaps between consecutive frames of a labelled sparse scan, as stored by the real consumer
-    (one overlaps_linear object is called for every frame pair and all answers are kept)"""
+    """properties.pairrow / pairscans: overlaps between consecutive frames of a labelled sparse scan (or matching frames of
+    two scans), as stored by the real consumers (one overlaps_linear object is called for every frame pair and all
+    answers are kept)"""
     import os, tempfile, shutil, contextlib, io
     from ..common import WORK
     from ImageD11.sinograms import properties
@@ -289,45 +539,94 @@ def pairrow_case(run, seed, idx, sparseframe):
             m[:] = False                      # an empty frame in the middle
         img = np.where(m, r.random(shape) * 100 + 1, 0).astype(np.float32)
         frames.append((m, img))
-    desc = dict(index=idx, kind="pairrow", shape=shape, nframes=nfr)
+    r2 = rng(seed, "C14", "pairrow2", idx)
+    # scan direction: consecutive means consecutive in omega, not in storage order
+    okind = ["increasing", "decreasing", "shuffled"][int(r2.integers(3))]
+    # (no omega within the matching tolerance of a multiple of 360: pairscans compares omega % 360 linearly, so a frame at
+    # 360.00 and its partner at 359.99 are not matched - frame matching is not part of this property's statement)
+    omega = np.arange(nfr) * 0.5 + float(r2.choice([0.25, -180.25, 359.25]))
+    if okind == "decreasing":
+        omega = omega[::-1].copy()
+    elif okind == "shuffled":
+        omega = omega[r2.permutation(nfr)]
+    # threshold below every stored pixel (all pixels labelled) or inside the range (unlabelled pixels are stored)
+    thr = 0.5 if r2.random() < 0.6 else float(r2.choice([20.0, 50.0, 90.0]))
+    desc = dict(index=idx, kind="pairrow", shape=shape, nframes=nfr, omega=okind, threshold=thr)
     run.case(("pairrow", shape, nfr, idx), nontrivial=True, sample=desc if idx < 2 else None)
     os.makedirs(os.path.join(WORK, "tmp"), exist_ok=True)
     d = tempfile.mkdtemp(prefix="c14p_", dir=os.path.join(WORK, "tmp"))
     try:
         fn = os.path.join(d, "scan.h5")
-        omega = np.arange(nfr) * 0.5
         imgs.write_sparse_scan(fn, frames, omega=omega)
         sc = sparseframe.SparseScan(fn, "1.1")
-        sc.cplabel(threshold=0.5, countall=False)
+        sc.cplabel(threshold=thr, countall=False)
         with contextlib.redirect_stdout(io.StringIO()):
             pairs = properties.pairrow(sc, 7)
         run.count("pairrow_runs")
-        # dense label images from the scan's own labels
-        dense = []
-        for k in range(nfr):
-            s0, e0 = sc.ipt[k], sc.ipt[k + 1]
-            lab = np.zeros(shape, np.int64)
-            lab[sc.row[s0:e0], sc.col[s0:e0]] = sc.labels[s0:e0]
-            dense.append(lab)
-        for k in range(1, nfr):
-            if sc.nnz[k] == 0 or sc.nnz[k - 1] == 0:
+        run.count("pairrow_omega_" + okind)
+        dense = _dense_labels(sc, shape)
+        bgframes = bool((sc.labels == 0).any())
+        if bgframes:
+            run.count("pairrow_runs_with_unlabelled_pixels")
+        order = sorted(range(nfr), key=lambda k: omega[k])
+        expected_keys = set()
+        for a, b in zip(order[:-1], order[1:]):
+            if sc.nnz[a] == 0 or sc.nnz[b] == 0:
                 continue
-            key = (7, k - 1, 7, k)
+            key = (7, a, 7, b)
+            expected_keys.add(key)
             if key not in pairs:
-                run.violation("pairrow:missing", "frame pair %r missing from pairrow result" % (key,), desc)
+                run.violation("pairrow:missing", "frame pair %r (consecutive in omega) missing from pairrow result" % (key,), desc)
                 return
-            ne, rcl = pairs[key]
-            both = (dense[k - 1] > 0) & (dense[k] > 0)
-            want = {}
-            for a, b in zip(dense[k - 1][both].tolist(), dense[k][both].tolist()):
-                want[(a, b)] = want.get((a, b), 0) + 1
-            got = {(int(a), int(b)): int(c) for a, b, c in (rcl[:ne] if ne else [])}
             run.count("pairrow_pairs_checked")
-            if got != want or (ne or 0) != len(want):
-                run.violation("pairrow:stored-overlaps",
-                              "overlaps stored by properties.pairrow for frames %d/%d differ from the brute-force count "
-                              "(%d pairs stored, %d expected)" % (k - 1, k, len(got), len(want)), dict(desc, frame=k))
+            if not _judge_stored(run, dict(desc, frames=[a, b]), "pairrow", pairs[key], dense[a], dense[b], bgframes):
                 return
+        extra = set(tuple(int(v) for v in k) for k in pairs) - expected_keys
+        if extra:
+            run.violation("pairrow:unexpected-pair", "pairrow stored frame pairs that are not consecutive in omega: %r"
+                          % (sorted(extra)[:3],), desc)
+            return
+        # ---- pairscans: a second scan whose frames are matched by omega modulo 360
+        frames2 = []
+        for k in range(nfr):
+            m = frames[k][0] & (r2.random(shape) < 0.8) | (r2.random(shape) < 0.1)
+            if k == 1 and idx % 3 == 0:
+                m[:] = False
+            frames2.append((m, np.where(m, r2.random(shape) * 100 + 1, 0).astype(np.float32)))
+        perm = r2.permutation(nfr) if r2.random() < 0.5 else np.arange(nfr)
+        # frame j of scan 2 was taken at the omega of frame perm[j] of scan 1, one turn later, with a small jitter
+        omega2 = omega[perm] + float(r2.choice([0.0, 360.0, -360.0])) + r2.uniform(-0.02, 0.02, nfr)
+        lonely = int(r2.integers(nfr)) if r2.random() < 0.5 else -1
+        if lonely >= 0:
+            omega2[lonely] += 0.2          # farther than omegatol from every frame of scan 1 (step 0.5)
+        fn2 = os.path.join(d, "scan2.h5")
+        imgs.write_sparse_scan(fn2, [frames2[j] for j in range(nfr)], omega=omega2)
+        # frames2[j] is stored as frame j of scan 2
+        sc2 = sparseframe.SparseScan(fn2, "1.1")
+        sc2.cplabel(threshold=thr, countall=False)
+        sc.sinorow, sc2.sinorow = 7, 8
+        with contextlib.redirect_stdout(io.StringIO()):
+            p2 = properties.pairscans(sc, sc2)
+        run.count("pairscans_runs")
+        dense2 = _dense_labels(sc2, shape)
+        bg2 = bgframes or bool((sc2.labels == 0).any())
+        expk = set()
+        for i in range(nfr):
+            j = int(np.nonzero(perm == i)[0][0])
+            if j == lonely or sc.nnz[i] == 0 or sc2.nnz[j] == 0:
+                continue
+            key = (7, i, 8, j)
+            expk.add(key)
+            if key not in p2:
+                run.violation("pairscans:missing", "frame pair %r (same omega modulo 360) missing from pairscans result" % (key,), desc)
+                return
+            run.count("pairscans_pairs_checked")
+            if not _judge_stored(run, dict(desc, frames=[i, j]), "pairscans", p2[key], dense[i], dense2[j], bg2):
+                return
+        extra = set(tuple(int(v) for v in k) for k in p2) - expk
+        if extra:
+            run.violation("pairscans:unexpected-pair", "pairscans stored frame pairs whose omega differ by more than the tolerance: %r"
+                          % (sorted(extra)[:3],), desc)
     finally:
         shutil.rmtree(d, ignore_errors=True)
 
@@ -351,7 +650,28 @@ def check(run, replay=None):
     for i in range(20 if run.tier == "quick" else 600):
         pairrow_case(run, run.seed, i, sparseframe)
     run.require_counter("pairrow_pairs_checked", 20)
+    run.require_counter("pairscans_pairs_checked", 20)
+    for k in ("increasing", "decreasing", "shuffled"):
+        run.require_counter("pairrow_omega_" + k, 2)
+    run.require_counter("pairrow_runs_with_unlabelled_pixels", 3)
     run.require_counter("roundtrips", 100)
+    for k in ("int8", "bool", "uint8", "int8-big"):
+        run.require_counter("maskrep_" + k, 20)
+    for k in ("none", "ones", "p80", "p30"):
+        run.require_counter("cut_detmask_" + k, 10)
+    run.require_counter("cut_selective_under_partial_detmask", 20)
+    run.require_counter("mask_method_calls", 100)
+    run.require_counter("threshold_method_calls", 50)
     run.require_counter("sort_calls", 50)
+    run.require_counter("duplicate_position_checks", 50)
+    run.require_counter("mixed_duplicate_inversion_checks", 50)
+    run.require_counter("oversize_rejected", 3)
     run.require_counter("overlap_cases", 100)
     run.require_counter("overlap_cases_beyond_32767", 10)
+    run.require_counter("overlap_cases_with_label0_pixels", 30)
+    run.require_counter("overlap_cases_no_shared_label_pair", 20)
+    run.require_counter("coverlaps_guarded_calls", 100)
+    run.require_counter("overlaps_matrix_calls", 300)
+    run.require_counter("overlaps_calls", 100)
+    run.extra["pending_subchecks"] = {k: ("on" if os.environ.get(k) else "off (fails on the repaired tree, awaiting decision): ") + v
+                                      for k, v in PENDING.items()}
